@@ -156,8 +156,12 @@ fn case(h: &H, idx: u64, kind: u64, rng: &mut Rng) {
                 v(h, idx, "curvature-gravity/instantiation", J::obj().set("ellps", &en));
                 return;
             };
+            let g0 = ctx.op(&format!("gravity {gk} zero-height ellps={en}")).ok();
             h.class(&format!("curvature/{ck}"));
             h.class(&format!("gravity/{gk}"));
+            if g0.is_some() {
+                h.class(&format!("gravity/{gk}/zero-height"));
+            }
             h.distinct(mix(hash_str(&en), hash_str(ck) ^ hash_str(gk)));
             for _ in 0..30 {
                 let latd = rng.range(-90.0, 90.0);
@@ -194,6 +198,22 @@ fn case(h: &H, idx: u64, kind: u64, rng: &mut Rng) {
                 if !((gr[0] - gw).abs() <= 4.0 * crate::geo::ulp(gw)) {
                     v(h, idx, &format!("gravity-op-differs-from-method/{gk}"), J::obj().set("ellps", &en).set("latitude_deg", latd).set("height", hgt).set("operator", gr[0]).set("method", gw));
                     return;
+                }
+                // with the zero-height flag the height of the input is not used
+                if let Some(g0) = g0 {
+                    let (gz, _) = apply1(&ctx, g0, D::F, [latd, hgt, 0.0, 0.0]);
+                    let gw0 = match gk {
+                        "welmec" => e.welmec(lat, 0.0),
+                        "grs80" => e.grs80_gravity(lat),
+                        "grs67" => e.grs67_gravity(lat),
+                        "jeffreys" => e.jeffreys_gravity_1948(lat),
+                        _ => e.cassinis_gravity_1930(lat),
+                    };
+                    h.eval(1);
+                    if !((gz[0] - gw0).abs() <= 4.0 * crate::geo::ulp(gw0)) {
+                        v(h, idx, &format!("gravity-op-differs-from-method/{gk}/zero-height"), J::obj().set("ellps", &en).set("latitude_deg", latd).set("height", hgt).set("operator", gz[0]).set("method_at_height_zero", gw0));
+                        return;
+                    }
                 }
             }
         }
